@@ -626,7 +626,7 @@ struct StreamEngine : Engine
     std::string rule(std::string const &prop) const override
     {
         if (prop == "C17") return "items are messages (0-300 bytes, 5 patterns) delivered in seeded fragments (0, 1, small, large) to MSB-first, LSB-first and reflected receivers of a seeded width/polynomial/initial value plus both string hashes (string form fed NUL-terminated or, for empty pieces, null pointers); table memory is pre-filled with one of six patterns before initialisation; after every fragment the running value is compared with bit-by-bit division over the delivered prefix; distinct_nontrivial = HyperLogLog estimate of distinct (width, polynomial, message length, split position) states";
-        return "items are seeded code-point streams (dense at the encoding-length boundaries) encoded by the real encoder and delivered in fragments with optional truncation, or (one third of the items) with corruption; single code points are additionally round-tripped with every proper prefix, explicit malformed sequences (any lead byte, up to 8 continuation bytes) are offered with every available length, and a real string object (a_utf_len, a_utf_catc) is driven with stale bytes behind its content; distinct_nontrivial = HyperLogLog estimate of distinct code points round-tripped and (pending bytes, decoded count, fault flags) reader states";
+        return "items are seeded code-point streams (dense at the encoding-length boundaries; in the thorough tier also rare texts of 2^32+5 one-byte characters for the length counter) encoded by the real encoder and delivered in fragments with optional truncation, or (one third of the items) with corruption; single code points are additionally round-tripped with every proper prefix, explicit malformed sequences (any lead byte, up to 8 continuation bytes) are offered with every available length, and a real string object (a_utf_len, a_utf_catc) is driven with stale bytes behind its content; distinct_nontrivial = HyperLogLog estimate of distinct code points round-tripped and (pending bytes, decoded count, fault flags) reader states";
     }
     std::vector<std::string> assumptions(std::string const &prop) const override
     {
